@@ -919,10 +919,11 @@ Definition items_of (ops : list opitem) : list (item vexpr) := map of_opitem ops
 
 Definition chain (evalx : vexpr -> state -> res (value * state)) (fuel : nat) (obj : value) (ops : list opitem) (st : state)
   : res (value * state) :=
-  (* truthiness never depends on the cells a chain can write, so it is taken on the state at hand *)
+  (* truthiness and the prefix operators are taken on the state the operand evaluation left: an operand of the
+     chain can be an object the chain itself allocated (0 or [1] and 3) *)
   match d with
-  | Asp => flat_ops (S := state) evalx (apply_bin fuel) (fun u v => apply_un u st v) (truthy d st) obj (items_of ops) st
-  | Py => py_ops (S := state) evalx (apply_bin fuel) (fun u v => apply_un u st v) (truthy d st) obj (items_of ops) st
+  | Asp => flat_ops (S := state) evalx (apply_bin fuel) (fun u v st0 => apply_un u st0 v) (fun v st0 => truthy d st0 v) obj (items_of ops) st
+  | Py => py_ops (S := state) evalx (apply_bin fuel) (fun u v st0 => apply_un u st0 v) (fun v st0 => truthy d st0 v) obj (items_of ops) st
   end.
 
 Fixpoint eval_expr (fuel : nat) (e : expr) (st : state) {struct fuel} : res (value * state) :=
